@@ -11,7 +11,8 @@ VARIABLES hist
 vars == <<ds, opt, X, heap, fcache, rcache, nid, returned, last, hist>>
 
 \* the request menu: single and multiple fields, every input, whole-array / pooled / sliced
-MenuFields == IF Family = "C18Extra" THEN {<<"obs">>, <<"q0.005">>, <<"q0.01">>, <<"obs", "q0.01">>, <<"obs", "q0.005">>, <<"fcst", "Tmax">>}
+MenuFields == IF Family = "C18Ens" THEN {<<"e0">>, <<"e1">>, <<"obs", "e2">>, <<"fcst">>}
+              ELSE IF Family = "C18Extra" THEN {<<"obs">>, <<"q0.005">>, <<"q0.01">>, <<"obs", "q0.01">>, <<"obs", "q0.005">>, <<"fcst", "Tmax">>}
               ELSE {<<"obs">>, <<"fcst">>, <<"obs", "fcst">>}
 \* MaxLen >= 99 means "no bound on the length of the history" (configurations *_Unbounded, explored under VIEW CanonicalView): the menu
 \* is then the core of 12 requests (every field set, every input, the whole array and one slice) so that the 2^12 cache contents stay enumerable
